@@ -743,6 +743,12 @@ func (sp *Specs) parseFile(path string, extern bool) error {
 				curF.Inline = true
 				curF.Verify = false
 			}
+		case "lemma":
+			// the contract is verified against the body, but callers keep seeing the body (inlined / evaluated as
+			// a pure function): for facts about a helper that should hold without weakening what callers know
+			if curF != nil {
+				curF.Inline = true
+			}
 		case "trusted", "assume":
 			if curF != nil {
 				curF.Trusted = true
